@@ -249,9 +249,10 @@ PROPS.update({
     "C07": gw("C07",
               "Lean theorems c07_client_cannot_activate (no client datagram activates a disconnected session), c07_activation (only the broker's CONNACK 0 for the "
               "exchange awaiting it does), c07_connect_sent_* (that state is entered exactly when the CONNECT is sent), c07_illegal / c07_legal_when_disconnected "
-              "(everything else ends the session, nothing forwarded) for ALL states and packets; whole-session statement checked by the monitor Spec.c07; "
-              "tie: gateway suite",
-              "theorems c07_* (one-step, all states and packets); monitor Spec.c07 on implementation traces"),
+              "(everything else ends the session, nothing forwarded) for ALL states and packets; ALL RUNS: c07_no_session_without_connack (after ANY sequence of timed events "
+              "without the broker's CONNACK 0 - every client datagram, every other broker packet, every timer, EOF, shutdown - the session is still disconnected); the "
+              "rest of the whole-session statement is checked by the monitor Spec.c07; tie: gateway suite",
+              "theorems c07_* (one-step, all states and packets) + c07_no_session_without_connack (all runs); monitor Spec.c07 on implementation traces"),
     "C08": gw("C08",
               "Lean theorems c08_auth_enabled_waits, c08_plain / c08_plain_sent, c08_malformed, c08_unknown_method, c08_auth_disabled, c08_configured, c08_auth_ignored about "
               "the model's connect exchange for ALL states and inputs; whole-exchange statement checked by the monitor Spec.c0809; tie: gateway suite (connect profile)",
@@ -269,8 +270,11 @@ PROPS.update({
               assumptions=["real-time bound measured under testing/synctest; the connection poll interval is the harness' fake connection's"]),
     "C11": gw("C11",
               "Lean theorems c11_asleep_silent, c11_flush, c11_wake (exactly the buffered packets, once each, in order, then PINGRESP; buffer empty; asleep again), "
-              "c11_asleep_mq for ALL states; whole-session statement (every sleep cycle, sleep-buffer samples) checked by the monitor Spec.c11; tie: gateway suite",
-              "theorems c11_*; monitor Spec.c11 on implementation traces"),
+              "c11_asleep_mq for ALL states; ALL RUNS: c11_asleep_runs_are_silent (from ANY state with a sleeping client, through ANY sequence of timed events other than the "
+              "client's PINGREQ / CONNECT / DISCONNECT and the CONNACK of an unfinished connect exchange, incl. every timer firing on the way, no datagram is sent and the "
+              "client stays asleep; from c11_silent_on_client_packets / _broker_packets / _timers for every event kind); what the queue holds is checked by the monitor "
+              "Spec.c11 (every sleep cycle, sleep-buffer samples); tie: gateway suite",
+              "theorems c11_* incl. c11_asleep_runs_are_silent (all runs); monitor Spec.c11 on implementation traces"),
     "C13": gw("C13",
               "Lean theorems c13_end (end emits DISCONNECT iff active/awake, the end marker and the broker close, stops all timers; once), c13_causes (shutdown, broker "
               "EOF/garbage, undecodable or illegal datagram cancel the session), c13_step_ends (the same step emits the end), c13_plain_disconnect; bounded real "
